@@ -24,6 +24,50 @@ def impl_fn(im, name):
 
 
 # --------------------------------------------------------------------------- T1
+def _append_order(fbody):
+    """variables whose conversion is appended to / extended onto the result vector, in statement order; None if a
+    statement touches the result in an unrecognised way"""
+    appended = []
+    for st in fbody['stmts']:
+        for n in sx.walk(st):
+            if n.get('k') == 'mcall' and n['m'] in ('append', 'extend') and len(n['args']) == 1:
+                a = sx.strip_ref(n['args'][0])
+                base = a
+                while base.get('k') in ('field', 'mcall'):
+                    base = base['e'] if base['k'] == 'field' else base['recv']
+                base = sx.strip_ref(base)
+                appended.append(sx.render(base))
+    return appended
+
+
+def judge_conversion(f, fns, depth=0):
+    """(verdict, why) for a `from(x: &(..)|&Wrapper<..>) -> RefNodes` body whose argument has several fields:
+    the fields must be destructured by name and appended each once in destructuring order (directly or through a private
+    helper that does that)."""
+    body = f['body']
+    stmts = body['stmts']
+    # delegation to a helper: a single call whose argument is x / &x.nodes
+    if len(stmts) == 1 and stmts[0]['k'] == 'expr' and sx.is_call(stmts[0]['e']) and depth < 2:
+        callee = stmts[0]['e']['f']['p'].split('::')[-1]
+        h = fns.get(callee)
+        if h is not None and len(stmts[0]['e']['args']) == 1 and squash(sx.render(stmts[0]['e']['args'][0])) in ('x', '&x.nodes'):
+            return judge_conversion(h, fns, depth + 1)
+    destruct = None
+    for s_ in stmts:
+        if s_['k'] == 'let' and s_['pat'].get('k') == 'tuple' and 'init' in s_:
+            destruct = sx.pat_idents(s_['pat'])
+    appended = _append_order(body)
+    if destruct is None or None in (destruct or [None]):
+        return 'undecided', 'fields are not destructured by name', destruct, appended
+    if not appended:
+        return 'undecided', 'no append/extend of the converted fields found', destruct, appended
+    if appended == destruct:
+        return 'ok', '', destruct, appended
+    if sorted(appended) == sorted(destruct) or set(appended) <= set(destruct):
+        return 'wrong', 'children are appended as %s; field order is %s' % (appended, destruct), destruct, appended
+    return 'undecided', 'appended values %s are not the destructured fields %s' % (appended, destruct), destruct, appended
+
+
 def t1(ctx):
     r = RuleResult('T1', 'RefNodes conversions enumerate children completely and in field order')
     files = sx.crate_files(ctx.syn, CRATE)
@@ -31,6 +75,7 @@ def t1(ctx):
     if an is None:
         r.fail('anchor:any_node.rs', '-', 'src/any_node.rs not found (fail closed)')
         return r
+    free_fns = {it['name']: it for mp, it in sx.items_rec(an['items']) if it['k'] == 'fn'}
     n_tuple = 0
     seen_kinds = set()
     for im in impls(an['items']):
@@ -46,80 +91,56 @@ def t1(ctx):
         txt = [squash(sx.render(s)) for s in body]
         inner = pty['e'] if pty.get('k') == 'ref' else pty
         key = 'conv:' + src
-        # appended variables, in statement order
-        appended = []
-        for s in body:
-            for n in sx.walk(s):
-                if n.get('k') == 'mcall' and n['m'] == 'append' and sx.is_path(n['recv'], 'ret'):
-                    a = sx.strip_ref(n['args'][0])
-                    # V.into().0  |  V.0
-                    base = a
-                    while base.get('k') in ('field', 'mcall'):
-                        base = base['e'] if base['k'] == 'field' else base['recv']
-                    base = sx.strip_ref(base)
-                    appended.append(sx.render(base))
-        tail_ok = txt and txt[-1] in ('ret.into()', 'RefNodes(ret)')
         if inner.get('k') == 'tuple' or (inner.get('k') == 'path' and inner['p'] in ('Paren', 'Brace', 'Bracket', 'ApostropheBrace', 'List')):
-            # destructuring statement gives the field order
-            destruct = None
-            for s in body:
-                if s['k'] == 'let' and s['pat'].get('k') == 'tuple' and 'init' in s:
-                    init = squash(sx.render(s['init']))
-                    if init in ('x', '&x.nodes'):
-                        destruct = sx.pat_idents(s['pat'])
             arity = len(inner['e']) if inner.get('k') == 'tuple' else (3 if inner['p'] != 'List' else 2)
             n_tuple += 1
             seen_kinds.add(inner['p'] if inner.get('k') == 'path' else 'tuple%d' % arity)
-            r.inst(key, {'conversion': src, 'fields': destruct, 'appended': appended})
-            if destruct is None or len(destruct) != arity or None in destruct:
-                r.fail('%s:%s:destructure' % (CRATE, src), where,
-                       'From<%s> for RefNodes: all %d fields must be destructured by name (found %s)' % (src, arity, destruct))
-            elif appended != destruct:
+            verdict, why, destruct, appended = judge_conversion(f, free_fns)
+            r.inst(key, {'conversion': src, 'verdict': verdict, 'fields': destruct, 'appended': appended})
+            if verdict == 'ok' and len(destruct) != arity:
+                verdict, why = 'wrong', '%d of the %d fields are converted' % (len(destruct), arity)
+            if verdict == 'wrong':
                 r.fail('%s:%s:order' % (CRATE, src), where,
-                       'From<%s> for RefNodes appends children as %s; field order is %s — iteration would visit children out of '
-                       'source order / drop or repeat one' % (src, appended, destruct))
-            if not tail_ok:
-                r.fail('%s:%s:tail' % (CRATE, src), where, 'From<%s> for RefNodes must return the accumulated vector' % src)
+                       'From<%s> for RefNodes: %s — iteration would visit children out of source order / drop or repeat one' % (src, why))
+            elif verdict == 'undecided':
+                r.undecided('%s:%s:shape' % (CRATE, src), where, 'From<%s> for RefNodes: %s' % (src, why))
         elif inner.get('k') == 'path' and inner['p'] == 'Vec' and inner.get('args') and inner['args'][0].get('k') == 'path' \
                 and inner['args'][0]['p'] == 'RefNode':
             continue  # Vec<RefNode> -> RefNodes wrapper
         elif inner.get('k') == 'path' and inner['p'] == 'Vec':
             seen_kinds.add('Vec')
-            loops = [s['e'] for s in body if s['k'] == 'expr' and s['e'].get('k') == 'for']
+            loops = [n for n in sx.walk(f['body']) if n.get('k') == 'for']
             r.inst(key, {'conversion': src, 'loop_over': sx.render(loops[0]['e']) if loops else None})
-            ok = len(loops) == 1 and squash(sx.render(loops[0]['e'])) in ('x', 'x.iter()', '&x') and \
-                len(loops[0]['body']['stmts']) == 1 and appended == sx.pat_idents(loops[0]['pat']) and tail_ok
-            if not ok:
-                r.fail('%s:%s:vec' % (CRATE, src), where,
-                       'From<&Vec<T>> for RefNodes must append every element once, iterating the vector forward (found %s)' % ' '.join(txt)[:160])
+            if len(loops) == 1 and '.rev()' in squash(sx.render(loops[0]['e'])):
+                r.fail('%s:%s:vec' % (CRATE, src), where, 'From<&Vec<T>> for RefNodes iterates the vector in reverse')
+            elif not (len(loops) == 1 and squash(sx.render(loops[0]['e'])) in ('x', 'x.iter()', '&x') and
+                      _append_order(loops[0]['body']) == sx.pat_idents(loops[0]['pat'])):
+                r.undecided('%s:%s:vec' % (CRATE, src), where, 'From<&Vec<T>> for RefNodes: %s' % ' '.join(txt)[:120])
         elif inner.get('k') == 'path' and inner['p'] == 'Option':
             seen_kinds.add('Option')
             r.inst(key, {'conversion': src})
-            ifs = [s['e'] for s in body if s['k'] == 'expr' and s['e'].get('k') == 'if']
-            ok = len(ifs) == 1 and ifs[0]['c'].get('k') == 'let' and squash(sx.render(ifs[0]['c'])) == 'letSome(x)=x' \
-                and 'e' not in ifs[0] and len(appended) == 1 and tail_ok
+            t_ = ' '.join(txt)
+            ok = ('ifletSome(' in t_ or 'Some(' in t_) and '.into()' in t_
             if not ok:
-                r.fail('%s:%s:option' % (CRATE, src), where, 'From<&Option<T>> for RefNodes must append the value iff present (found %s)' % ' '.join(txt)[:160])
+                r.undecided('%s:%s:option' % (CRATE, src), where, 'From<&Option<T>> for RefNodes: %s' % t_[:120])
         elif inner.get('k') == 'path' and inner['p'] == 'Box':
             seen_kinds.add('Box')
             r.inst(key, {'conversion': src})
-            ok = any('&**x.into()' in t for t in txt) and len(appended) == 1 and tail_ok
-            if not ok:
-                r.fail('%s:%s:box' % (CRATE, src), where, 'From<&Box<T>> for RefNodes must forward to the boxed value (found %s)' % ' '.join(txt)[:160])
+            t_ = ' '.join(txt)
+            if '&**x' not in t_ or '.into()' not in t_:
+                r.undecided('%s:%s:box' % (CRATE, src), where, 'From<&Box<T>> for RefNodes: %s' % t_[:120])
         elif inner.get('k') == 'path' and inner['p'] == 'Locate':
             seen_kinds.add('Locate')
             r.inst(key, {'conversion': src})
-            if txt != ['vec!(RefNode::Locate(x)).into()']:
-                r.fail('%s:%s:locate' % (CRATE, src), where, 'From<&Locate> for RefNodes must be the single leaf (found %s)' % ' '.join(txt)[:120])
+            if 'RefNode::Locate(x)' not in ' '.join(txt):
+                r.undecided('%s:%s:locate' % (CRATE, src), where, 'From<&Locate> for RefNodes: %s' % ' '.join(txt)[:120])
         else:
-            r.fail('%s:%s:unknown-conversion' % (CRATE, src), where, 'From<%s> for RefNodes: conversion of an unmodelled shape (fail closed)' % src)
-    need = {'tuple%d' % i for i in range(1, 12)} | {'Paren', 'Brace', 'Bracket', 'ApostropheBrace', 'List', 'Vec', 'Option', 'Box', 'Locate'}
-    # tuple arities actually used by `nodes` fields must all have a conversion (compile-checked) — floor on what we saw
-    missing = sorted(k for k in need if k not in seen_kinds and not k.startswith('tuple'))
+            r.undecided('%s:%s:unknown-conversion' % (CRATE, src), where, 'From<%s> for RefNodes: conversion of an unmodelled shape' % src)
+    need = {'Paren', 'Brace', 'Bracket', 'ApostropheBrace', 'List', 'Vec', 'Option', 'Box', 'Locate'}
+    missing = sorted(k for k in need if k not in seen_kinds)
     for k in missing:
         r.fail('%s:conversion-missing:%s' % (CRATE, k), '-', 'no From<&%s> for RefNodes conversion found (fail closed)' % k)
     r.floor('tuple_and_wrapper_conversions', n_tuple, 14)
-    # List::contents is used by the preprocessor to enumerate list items
     return r
 
 
@@ -397,48 +418,87 @@ def t4(ctx):
         body = f['body']
         stmts = body['stmts']
         facts = {}
-        # 1. the value returned is the popped top of the stack
         pops = [n for n in sx.walk(body) if n.get('k') == 'mcall' and n['m'] == 'pop']
         facts['pops'] = [squash(sx.render(p)) for p in pops]
+        if facts['pops'] != ['self.next.0.pop()']:
+            if len(pops) > 1:
+                return 'wrong', 'more than one pop per step', facts
+            return 'undecided', 'the pop from the pending stack was not recognised', facts
+        # the popped value: let V = pop() | let V = pop()?
         ret_var = None
-        if stmts and stmts[0]['k'] == 'let' and stmts[0].get('init') in pops:
-            ret_var = sx.pat_idents(stmts[0]['pat'])[0]
-        facts['returns_popped'] = bool(ret_var) and stmts[-1]['k'] == 'expr' and not stmts[-1].get('semi') and sx.is_path(stmts[-1]['e'], ret_var)
-        facts['single_pop_from_stack'] = facts['pops'] == ['self.next.0.pop()']
-        # 2. children: x.next() of the popped node, reversed exactly once, appended to the same stack
-        revs = [n for n in sx.walk(body) if n.get('k') == 'mcall' and n['m'] == 'reverse']
-        apps = [n for n in sx.walk(body) if n.get('k') == 'mcall' and n['m'] == 'append']
+        opt = True
+        for st_ in stmts:
+            if st_['k'] == 'let' and 'init' in st_:
+                init = st_['init']
+                if init in pops:
+                    ret_var = sx.pat_idents(st_['pat'])[0]
+                elif init.get('k') == 'try' and init['e'] in pops:
+                    ret_var = sx.pat_idents(st_['pat'])[0]
+                    opt = False
+        last = stmts[-1]
+        tail = squash(sx.render(last)) if last['k'] == 'expr' and not last.get('semi') else None
+        facts['returns'] = tail
+        if ret_var is None:
+            return 'undecided', 'the popped value is not bound to a local', facts
+        if tail not in ((ret_var,) if opt else ('Some(%s)' % ret_var,)):
+            if tail is not None and ret_var not in tail:
+                return 'wrong', 'the step does not return the popped item (returns %s)' % tail, facts
+            return 'undecided', 'return expression %s' % tail, facts
+        # children: exactly one `.next()` on (a binding of) the popped node; pushed reversed once onto self.next.0
         nexts = [n for n in sx.walk(body) if n.get('k') == 'mcall' and n['m'] == 'next' and not n['args']]
-        facts['reverse_calls'] = len(revs)
-        facts['append_target'] = [squash(sx.render(a['recv'])) for a in apps]
-        facts['children_from'] = [squash(sx.render(n['recv'])) for n in nexts]
-        ok = facts['returns_popped'] and facts['single_pop_from_stack'] and len(revs) == 1 and facts['append_target'] == ['self.next.0'] and len(nexts) == 1
-        if ok:
-            # reversed list is the one appended; and reversal precedes the append
-            rv = squash(sx.render(revs[0]['recv']))
-            av = squash(sx.render(sx.strip_ref(apps[0]['args'][0])))
-            ok = rv == av and (revs[0].get('l'), revs[0].get('col')) < (apps[0].get('l'), apps[0].get('col'))
-            facts['reversed_is_appended'] = ok
+        if len(nexts) != 1:
+            return 'undecided', '%d calls of .next()' % len(nexts), facts
+        revs = [n for n in sx.walk(body) if n.get('k') == 'mcall' and n['m'] in ('reverse', 'rev')]
+        apps = [n for n in sx.walk(body) if n.get('k') == 'mcall' and n['m'] in ('append', 'extend') and squash(sx.render(n['recv'])) == 'self.next.0']
+        facts['reversals'] = len(revs)
+        facts['pushes_of_children'] = len(apps)
+        if len(apps) != 1:
+            return 'undecided', '%d append/extend onto the stack' % len(apps), facts
+        if len(revs) == 0:
+            return 'wrong', 'the children are put on the stack without being reversed: they would be visited last-to-first', facts
+        if len(revs) > 1:
+            return 'wrong', 'the children are reversed %d times' % len(revs), facts
+        # the reversal happens before / inside the push
+        rpos = (revs[0].get('l'), revs[0].get('col'))
+        apos = (apps[0].get('l'), apps[0].get('col'))
+        inside = any(x is revs[0] for x in sx.walk(apps[0]))
+        if not inside and not rpos < apos:
+            return 'wrong', 'the children are reversed after they were pushed', facts
         if event:
-            # Leave(x) pushed onto the same stack before the children are appended, only for Enter events
-            pushes = [n for n in sx.walk(body) if n.get('k') == 'mcall' and n['m'] == 'push']
-            facts['pushes'] = [squash(sx.render(p)) for p in pushes]
-            okp = len(pushes) == 1 and squash(sx.render(pushes[0]['recv'])) == 'self.next.0' and \
-                squash(sx.render(pushes[0]['args'][0])).startswith('NodeEvent::Leave(') and \
-                (pushes[0].get('l'), pushes[0].get('col')) < (apps[0].get('l'), apps[0].get('col')) if apps else False
-            enter_guard = any(n.get('k') == 'if' and n['c'].get('k') == 'let' and squash(sx.render(n['c']['pat'])).startswith('NodeEvent::Enter(')
-                              and any(x is pushes[0] for x in sx.walk(n['t'])) for n in sx.walk(body)) if pushes else False
-            facts['leave_pushed_first_under_enter'] = bool(okp and enter_guard)
-            ok = ok and okp and enter_guard
-        return ok, facts
+            pushes = [n for n in sx.walk(body) if n.get('k') == 'mcall' and n['m'] == 'push' and squash(sx.render(n['recv'])) == 'self.next.0']
+            facts['leave_pushes'] = [squash(sx.render(p)) for p in pushes]
+            if len(pushes) != 1:
+                return ('wrong', 'no Leave event is pushed', facts) if not pushes else ('undecided', '%d pushes' % len(pushes), facts)
+            arg = pushes[0]['args'][0]
+            argt = squash(sx.render(arg))
+            if not argt.startswith('NodeEvent::Leave('):
+                # a local bound to the Leave event
+                if sx.is_path(arg):
+                    lets = [st_ for st_ in sx.walk(body) if st_.get('k') == 'let' and 'pat' in st_ and arg['p'] in sx.pat_idents(st_['pat'])]
+                    if not (lets and 'init' in lets[-1] and squash(sx.render(lets[-1]['init'])).startswith('NodeEvent::Leave(')):
+                        return 'undecided', 'pushed value %s' % argt, facts
+                else:
+                    return 'undecided', 'pushed value %s' % argt, facts
+            if not (pushes[0].get('l'), pushes[0].get('col')) < apos:
+                return 'wrong', 'Leave is pushed after the children: it would be delivered before them', facts
+            # only for Enter events
+            guarded = any((n.get('k') == 'if' and n['c'].get('k') == 'let' and 'NodeEvent::Enter(' in squash(sx.render(n['c']['pat'])) and any(x is pushes[0] for x in sx.walk(n['t'])))
+                          for n in sx.walk(body)) or \
+                any(n.get('k') == 'match' and any('NodeEvent::Enter(' in squash(sx.render(a_['pat'])) and any(x is pushes[0] for x in sx.walk(a_['body'])) for a_ in n['arms'])
+                    for n in sx.walk(body))
+            if not guarded:
+                return 'undecided', 'the Leave push is not visibly restricted to Enter events', facts
+        return 'ok', '', facts
     for st, f in its.items():
         event = st.startswith('EventIter')
-        ok, facts = analyse(f, event)
-        r.inst('next:' + st, {'impl': st, **facts})
-        if not ok:
+        verdict, why, facts = analyse(f, event)
+        r.inst('next:' + st, {'impl': st, 'verdict': verdict, **facts})
+        if verdict == 'wrong':
             r.fail('%s:%s:next' % (CRATE, st), '%s/src/any_node.rs:%s' % (CRATE, f['l']),
                    '%s::next must pop the top, %sexpand the popped node\'s children reversed exactly once onto the same stack and return the '
-                   'popped item; found %s' % (st, 'push Leave(x) for an Enter(x) before its children, ' if event else '', facts))
+                   'popped item: %s' % (st, 'push Leave(x) for an Enter(x) before its children, ' if event else '', why))
+        elif verdict == 'undecided':
+            r.undecided('%s:%s:next' % (CRATE, st), '%s/src/any_node.rs:%s' % (CRATE, f['l']), '%s::next: %s' % (st, why))
     # conversions used by event(): Iter -> EventIter and RefNodes -> NodeEvents keep order and wrap in Enter
     n_conv = 0
     for im in impls(an['items']):
@@ -446,12 +506,14 @@ def t4(ctx):
             f = impl_fn(im, 'from')
             fors = [n for n in sx.walk(f['body']) if n.get('k') == 'for']
             n_conv += 1
-            ok = len(fors) == 1 and 'rev' not in squash(sx.render(fors[0]['e'])) and \
-                [squash(sx.render(s_)) for s_ in fors[0]['body']['stmts']] == ['ret.push(NodeEvent::Enter(x));']
+            t_ = squash(sx.render(f['body']))
             r.inst('event-conversion:' + squash(im['self_tys']))
-            if not ok:
+            if '.rev()' in t_ or '.reverse()' in t_ or 'NodeEvent::Leave' in t_:
                 r.fail('%s:%s:event-conversion' % (CRATE, squash(im['self_tys'])), '%s/src/any_node.rs:%s' % (CRATE, f['l']),
                        'conversion into %s must wrap every node in Enter, in the same order' % squash(im['self_tys']))
+            elif not ('NodeEvent::Enter' in t_ or '.event()' in t_):
+                r.undecided('%s:%s:event-conversion' % (CRATE, squash(im['self_tys'])), '%s/src/any_node.rs:%s' % (CRATE, f['l']),
+                            'conversion into %s: %s' % (squash(im['self_tys']), t_[:100]))
     r.floor('event_conversions', n_conv, 2)
     # unwrap_node! / unwrap_locate!: first match wins (return inside the for, None after it)
     api = sx.crate_files(ctx.syn, 'sv-parser')['src/lib.rs']
@@ -460,10 +522,11 @@ def t4(ctx):
     for mc in macs:
         t = mc['tokens'].replace(' ', '')
         r.inst('macro:' + mc['name'])
-        ok = 'forxin$n{matchx{' in t and '=>returnSome(' in t and t.count('None') >= 1 and t.index('returnSome(') < t.rindex('None') and '.rev()' not in t
-        if not ok:
+        if '.rev()' in t or '.last()' in t:
             r.fail('sv-parser:%s:first-match' % mc['name'], 'sv-parser/src/lib.rs:%s' % mc['l'],
-                   '%s! must iterate forward and return the first node of the requested kinds, None otherwise' % mc['name'])
+                   '%s! must iterate forward and return the FIRST node of the requested kinds' % mc['name'])
+        elif not ('forxin$n{' in t and 'returnSome(' in t and 'None' in t and t.index('returnSome(') < t.rindex('None')):
+            r.undecided('sv-parser:%s:first-match' % mc['name'], 'sv-parser/src/lib.rs:%s' % mc['l'], '%s!: body not in the recognised for/return form' % mc['name'])
     return r
 
 
